@@ -16,30 +16,30 @@ import (
 
 func init() {
 	register(&propDef{
-		ID:  "C05",
-		Run: ruleC05,
+		ID:          "C05",
+		Run:         ruleC05,
 		Explanation: "Decides validity of the placeholder constants and the class->placeholder selection (structural necessary conditions of C05): (R1) each placeholder constant is a member of its class, evaluated by the checker on the source constants (RFC 3339 date, 24 hex digits, valid standard base64, e-mail literal matching the pattern extracted from the classifier and within its length bounds, number 0, boolean false); (R2) in the scalar step the arm taken under parent key $date yields the date placeholder, $oid the ObjectId placeholder, base64 under grand-parent $binary the base64 placeholder, the e-mail arm is guarded by the classifier, every other string yields the configured replacement global, numbers yield 0 and booleans false; parent/grand-parent key are the last / second-to-last path elements; (R3) the replacement text is stored only by init and its setter, fed by --replacement; (R4) $binary.subType is exempt. NOT decided: that an arbitrary replacement string survives JSON serialisation (library).",
 		RuleText:    "obligations = placeholder constants (checker-side evaluation of source constants), calls of the string choke point in the scalar step (guard atoms -> expected placeholder operand), numeric/boolean constant returns, stores to the replacement global",
 	})
 	register(&propDef{
-		ID:  "C19",
-		Run: ruleC19,
+		ID:          "C19",
+		Run:         ruleC19,
 		Explanation: "Decides that each placeholder is classified as its own class by the same code and that the redactor emits no other values on redacting paths (structural necessary conditions of C19): (R1) feeding each arm's placeholder constant back through the class tests, evaluated on the source constants, yields the same constant (the e-mail literal is accepted by the extracted classifier, the default replacement is not and does not start with '$', the wrapper arms are selected by key and string type only, number/boolean placeholders are JSON numbers/booleans, the remote placeholder is a constant string); (R2) every non-raw return of the scalar step is a constant, the replacement global or a choke-point result whose placeholder operand is one of those; (R3) parse followed by serialise keeps kinds, order and number text: number tokens stay json.Number (UseNumber before the first token), objects are rebuilt in token order and serialised Front-to-Next, containers never reach encoding/json. NOT decided: byte-level canonicity of encoding/json on its own output; a user-supplied replacement that is e-mail shaped (excluded by the statement).",
 		RuleText:    "obligations = placeholder constants re-classified by the extracted classifier, non-raw returns of the scalar step, parser/serialiser agreement rules shared with C03/C04",
 	})
 }
 
 type placeholders struct {
-	vals       map[string]constant.Value // constant name -> value
-	emailLit   string
-	emailPat   string
-	emailMin   int64
-	emailMax   int64
-	remoteLit  string
-	problems   []string
-	emailCall  *ssa.Call
-	scalarFn   *ssa.Function
-	choke      *ssa.Function
+	vals      map[string]constant.Value // constant name -> value
+	emailLit  string
+	emailPat  string
+	emailMin  int64
+	emailMax  int64
+	remoteLit string
+	problems  []string
+	emailCall *ssa.Call
+	scalarFn  *ssa.Function
+	choke     *ssa.Function
 }
 
 func (c *Ctx) placeholders(p *Prov) *placeholders {
